@@ -4,7 +4,7 @@ import AGV.Model.Http
 import AGV.Spec.Http
 
 open AGV AGV.Sexp
-open AGV.Spec.Http (Str J Members Req BatchReq Err Part BatchResp)
+open AGV.Spec.Http (Str J Members Req BatchReq Err Part BatchResp Bytes BPart)
 
 namespace AGV.Drive.C23
 
@@ -52,6 +52,7 @@ def errName : Err → String
   | .invalidRequest => "invalid-request" | .unsupportedBatch => "unsupported-batch"
   | .invalidMultipart => "invalid-multipart" | .missingOperations => "missing-operations"
   | .missingMap => "missing-map" | .panic => "panic"
+  | .invalidFilesMap => "invalid-files-map" | .missingFiles => "missing-files"
 
 def errSexp (e : Err) : Sexp := .list [.atom "err", .atom (errName e)]
 
@@ -119,6 +120,56 @@ def getOfSexp (ps : List Sexp) : Option GetCase :=
     | .list [.str k, .str v, j] => (jOfSexp j).map (fun t => { pairs := g.pairs ++ [(k, v)], table := g.table ++ [(v, t)] })
     | _ => none) ⟨[], []⟩
 
+-- ------------------------------------------------------------------ byte-level cases
+
+def hexVal (c : Char) : Option Nat :=
+  if '0' ≤ c ∧ c ≤ '9' then some (c.toNat - '0'.toNat)
+  else if 'a' ≤ c ∧ c ≤ 'f' then some (c.toNat - 'a'.toNat + 10)
+  else none
+
+def unhex : List Char → Option Bytes
+  | [] => some []
+  | a :: b :: r => match hexVal a, hexVal b, unhex r with
+    | some x, some y, some bs => some ((x * 16 + y).toUInt8 :: bs)
+    | _, _, _ => none
+  | _ => none
+
+def tableOfSexp (ts : List Sexp) : Option (List (Str × J)) :=
+  ts.mapM (fun (t : Sexp) => match t with
+    | Sexp.list [Sexp.str text, j] => (jOfSexp j).map (fun j => (text, j))
+    | _ => none)
+
+def lookupText (table : List (Str × J)) (t : Str) : Option J := (table.find? (fun p => p.1 = t)).map (·.2)
+
+def lowerAscii (s : Str) : Str := s.map (fun c => if 'A' ≤ c ∧ c ≤ 'Z' then Char.ofNat (c.toNat + 32) else c)
+
+def partContentType (hdrs : List Sexp) : Option Str :=
+  hdrs.findSome? (fun (h : Sexp) => match h with
+    | Sexp.list [Sexp.str k, Sexp.str v] => if lowerAscii k = "content-type".toList then some v else none
+    | _ => none)
+
+def bpartOfSexp : Sexp → Option BPart
+  | .list [.atom "opsb", .list hdrs, .str h] => (unhex h).map (BPart.ops (partContentType hdrs))
+  | .list [.atom "mapb", .list _, .str h] => (unhex h).map BPart.map
+  | .list [.atom "fieldb", .str _, .str _] => some .other
+  | _ => none
+
+/-- the batch a `bdoc` case wraps its bytes into (see the harness: BATCH_PREFIX) -/
+def batchPrefix : Str := "[{\"query\":\"0\"},".toList
+def batchFirst : J := .obj [("query".toList, .str "0".toList)]
+
+def bothSexp (b : Except Err BatchReq) (single : Except Err BatchReq → Except Err Req) : Option Sexp :=
+  match b with
+  | .error .panic => none
+  | _ => some (.list [.atom "both", batchOut b, singleOut (single b)])
+
+def docOut (xs : List (Option Sexp)) : String :=
+  match xs.mapM id with
+  | none => "(panic)"
+  | some ys => render (.list (.atom "doc" :: ys))
+
+def idLossy := "C23-get-lossy-utf8"
+
 def normImpl (impl : String) : String := if impl.startsWith "(panic" then "(panic)" else impl
 
 def idGet := "C23-get-operation-name-ignored"
@@ -130,14 +181,16 @@ def judge (known : List String) (case impl : String) : JudgeOut :=
   let dK : Model.Http.Defects :=
     { getOperationNameSnakeCase := known.contains idGet,
       requestAcceptsArray := known.contains idArr,
-      opsMultipartTypePanics := known.contains idPanic }
+      opsMultipartTypePanics := known.contains idPanic,
+      getLossyUtf8 := known.contains idLossy }
   let jk := Model.Http.jsonKeys
   -- `f D` = model output under toggles D; spec given separately
   let go (spec : String) (f : Model.Http.Defects → String) : JudgeOut :=
     triage impl spec (f dK)
       [(idGet, f { dK with getOperationNameSnakeCase := false }),
        (idArr, f { dK with requestAcceptsArray := false }),
-       (idPanic, f { dK with opsMultipartTypePanics := false })]
+       (idPanic, f { dK with opsMultipartTypePanics := false }),
+       (idLossy, f { dK with getLossyUtf8 := false })]
   match parse case with
   | some (.list [.atom "get", .atom _, .list ps]) =>
     match getOfSexp ps with
@@ -171,6 +224,41 @@ def judge (known : List String) (case impl : String) : JudgeOut :=
     | some j =>
       go (execOut (Spec.Http.decodeBody j) (Spec.Http.executeBatch execEcho))
          (fun D => execOut (Model.Http.decodeBatch D jk j) (Model.Http.executeBatch execEcho))
+  | some (.list [.atom "bdoc", _, .list hdrs, .str h, .list ts]) =>
+    match unhex h, tableOfSexp ts with
+    | some bs, some table =>
+      let emptyObj : Str × J := ("{}".toList, .obj [])
+      let parseT := lookupText (emptyObj :: table)
+      -- `[first,T]` is JSON text exactly when `T` is, and denotes the two-element array
+      let parseW := lookupText (table.map (fun p => (batchPrefix ++ p.1 ++ [']'], J.arr [batchFirst, p.2])))
+      let wrapped : Bytes := AGV.Spec.Http.utf8Encode batchPrefix ++ bs ++ [0x5D]
+      let parts : List BPart := [.ops (partContentType hdrs) bs, .map (AGV.Spec.Http.utf8Encode "{}".toList)]
+      go (docOut [bothSexp (Spec.Http.decodeBodyBytes parseT bs) Spec.Http.intoSingle,
+                  bothSexp (Spec.Http.decodeBodyBytes parseW wrapped) Spec.Http.intoSingle,
+                  bothSexp (Spec.Http.decodeMultipartBytes parseT parts) Spec.Http.intoSingle])
+         (fun D => docOut [bothSexp (Model.Http.decodeBodyBytes D jk parseT bs) Model.Http.intoSingle,
+                           bothSexp (Model.Http.decodeBodyBytes D jk parseW wrapped) Model.Http.intoSingle,
+                           bothSexp (Model.Http.decodeMultipartBytes D jk parseT parts) Model.Http.intoSingle])
+    | _, _ => .viol "bad-case" "bad-case"
+  | some (.list [.atom "bmultipart", .list ps, .list ts]) =>
+    match ps.mapM bpartOfSexp, tableOfSexp ts with
+    | some parts, some table =>
+      let parseT := lookupText table
+      go (bothOut (Spec.Http.decodeMultipartBytes parseT parts) Spec.Http.intoSingle)
+         (fun D => bothOut (Model.Http.decodeMultipartBytes D jk parseT parts) Model.Http.intoSingle)
+    | _, _ => .viol "bad-case" "bad-case"
+  | some (.list [.atom "bget", .atom _, .list ps, .list ts]) =>
+    let pairs := ps.mapM (fun (p : Sexp) => match p with
+      | Sexp.list [Sexp.str k, Sexp.str v] => match unhex k, unhex v with
+        | some kb, some vb => some (kb, vb)
+        | _, _ => none
+      | _ => none)
+    match pairs, tableOfSexp ts with
+    | some pairs, some table =>
+      let parseT := lookupText table
+      go (render (singleOut (Spec.Http.decodeGetBytes parseT pairs)))
+         (fun D => render (singleOut (Model.Http.decodeGetBytes D (Model.Http.getKeys D) parseT pairs)))
+    | _, _ => .viol "bad-case" "bad-case"
   | _ => .viol "bad-case" "bad-case"
 
 end AGV.Drive.C23
